@@ -7,17 +7,22 @@
    gen_centroid models sleap_nn/data/instance_centroids.py:generate_centroids
    on ONE instance and returns the centroid AND the caller's keypoints as they
    are after the call:
-     fixed = false   the code as it is: `centroids = points[..., anchor, :]` is a
-                     view, so `centroids[missing] = bbox midpoint` also overwrites
-                     the anchor keypoint of the caller's tensor (finding F5);
-     fixed = true    with `.clone()` (proposed_fixes/C11_F5.diff).
+     fixed = false   PINNED tree (before fix 563a1fb): `centroids = points[..., anchor, :]`
+                     is a view, so `centroids[missing] = bbox midpoint` also overwrites
+                     the anchor keypoint of the caller's tensor (finding F5, fixed);
+     fixed = true    CURRENT tree (/repo HEAD, fix 563a1fb = proposed_fixes/C11_F5.diff):
+                     the anchor slice is cloned.
+   gen_centroid is total: for an anchor that is not a node the code raises IndexError, the
+   model returns the bbox midpoint (Dataset.anchor_domain names the domain; review finding 2).
    The harness decides which one the code under check is by replaying the
    corpus witness, and compares this model with the real function on every
    generated case.
 
    sample_instance models what CenteredInstanceDataset / CentroidDataset keep
    of an instance: keypoints * scale, generate_centroids (which may write),
-   minus the crop offset (0 for the centroid dataset).
+   minus the crop offset (0 for the centroid dataset).  It is not evaluated by the
+   harness itself; LemmasD.centered_sample_is_sample_instance_l relates it to the
+   evaluated Dataset.centered_sample (review finding 4).
 
    lf_idx_list / instance_idx_list model BaseDataset._get_lf_idx_list and
    CenteredInstanceDataset._get_instance_idx_list (filtering of all-NaN
@@ -73,7 +78,7 @@ Definition gen_centroid (fixed : bool) (anchor : option nat) (inst : instance) :
           else match anchor with Some a => set_nth a m inst | None => inst end)
   end.
 
-(* the inputs on which the unrepaired code alters its argument: an anchor is
+(* the inputs on which the unrepaired code (pinned tree, before fix 563a1fb) alters its argument: an anchor is
    configured, that node is unlabelled, and the instance has a labelled node *)
 Definition selector_F5 (anchor : option nat) (inst : instance) : bool :=
   match anchor with
